@@ -167,6 +167,9 @@ func (p *c01) Prepare(t *testing.T, tier string, seed uint64) {
 				add(C01Plan{Attack: "rogueOldEpoch"})
 				add(C01Plan{Attack: "rogueAppend"})
 				add(C01Plan{Attack: "rogueBadHeaderHash"})
+				add(C01Plan{Attack: "rogueForgedHeader"})
+				add(C01Plan{Attack: "rogueForgedHeaderHmacFault", Occur: 1})
+				add(C01Plan{Attack: "rogueForgedHeaderHmacFault", Occur: 2})
 				add(C01Plan{Attack: "rogueGoodForgedEntry"})
 				add(C01Plan{Attack: "replay61"})
 				if chain >= 2 {
@@ -685,6 +688,28 @@ func c01Run(env *Env, pl *C01Plan, collect map[c01Target][]byte) {
 		s.AddRogueOwner("rogue", "owner1", fv)
 		ownerNode, tampered = "rogue", true
 		o.Fault("inject")
+	case "rogueForgedHeader", "rogueForgedHeaderHmacFault":
+		// an insider holding the manufacturer key rewrites the header; it cannot
+		// compute the device's HMAC over it and sends an empty one. In the fault
+		// variant the device's HMAC engine (hardware style, with an Err method)
+		// fails its Occur-th finalisation of this TO2.
+		base := *chain[0]
+		hv := base.Header.Val
+		hv.DeviceInfo = "forged-" + hv.DeviceInfo
+		base.Header = *cbor.NewBstr(hv)
+		base.Hmac.Value = []byte{}
+		fv, err := forgeEntry(&base, s.Keys.Get("mfg", cfg.Fam()), s.Keys.Get("att1", cfg.Fam()), cfg)
+		if err != nil {
+			harnessFail("forge-entry", err)
+			return
+		}
+		s.AddRogueOwner("rogue", "att1", fv)
+		ownerNode, tampered = "rogue", true
+		o.Fault("inject")
+		if pl.Attack == "rogueForgedHeaderHmacFault" {
+			d1.HmacSums, d1.HmacFailSum = 0, pl.Occur
+			o.Fault("hmac-engine-fails")
+		}
 	case "rogueGoodForgedEntry":
 		// control for the entry builder: a correct entry by the legitimate
 		// signer must be accepted
